@@ -24,4 +24,21 @@ theorem known_native_loops_tight :
     ∀ n ∈ knownNativeLoops, (nativeEdges.any fun e => e.opcode == n && e.backedge && !e.poll) = true := by
   decide
 
+/-- The JIT's runtime helpers call a compiled callee's native entry directly ("trampoline").  A compiled self-tail
+loop polls only because `TCOJMP` makes the native code return to the dispatch loop: no helper may call the entry
+again in a loop of its own. -/
+theorem trampoline_calls_once :
+    4 ≤ trampolineSites.length ∧ ∀ e ∈ trampolineSites, e.inLoop = false := by decide
+
+/-- Sites that drop a callback's error today (class predicate of K17d): the tail thunk of a lazy stream, and the
+generic reducer's `fold`. -/
+def knownErrorDrops : List (String × String) := [("lazy_stream.rs", "next"), ("transducers.rs", "Generic")]
+
+/-- Everywhere else in the iterator pipelines of `transduce` the error returned by a Steel callback (e.g. the
+interrupt raised by the poll at its first instruction) is handed on: to the next stage and finally to the reducer,
+which stops. -/
+theorem iteration_errors_propagate :
+    6 ≤ iterSites.length ∧
+    ∀ e ∈ iterSites, e.swallows = true → (e.file, e.stage) ∈ knownErrorDrops := by decide
+
 end SteelVerif.C17
